@@ -31,7 +31,7 @@ Qed.
 
 Theorem tree_of_denotes : forall v, wf fmt v = true -> denotes fmt (tree_of fmt v) v.
 Proof.
-  induction v as [| b | z | sci b | s | l IH | tn fs IH] using value_ind_nested; intro Hw.
+  induction v as [| b | z | sci b | raw s | l IH | tn fs IH] using value_ind_nested; intro Hw.
   - constructor.
   - constructor.
   - simpl. constructor. apply int_token_dec. exact Hw.
@@ -80,7 +80,7 @@ Qed.
 
 Lemma data_wf : forall v, data fmt v = true -> wf fmt v = true.
 Proof.
-  induction v as [| b | z | sci b | s | l IH | tn fs IH] using value_ind_nested; intro Hd; simpl in *; auto.
+  induction v as [| b | z | sci b | raw s | l IH | tn fs IH] using value_ind_nested; intro Hd; simpl in *; auto.
   - apply andb_true_iff in Hd. destruct Hd as [_ H]. rewrite H. apply orb_true_r.
   - apply str_valid_ok. exact Hd.
   - apply forallb_forall. intros x Hx. rewrite forallb_forall in Hd. rewrite Forall_forall in IH. auto.
@@ -145,6 +145,7 @@ End Oracles.
 Fixpoint unsci (v : value) : value :=
   match v with
   | VFloat _ bits => VFloat false bits
+  | VStr _ s => VStr false s
   | VArr l => VArr (map unsci l)
   | VHash tn fs => VHash tn (map (fun kv => match kv with (k, x) => (k, unsci x) end) fs)
   | _ => v
@@ -152,7 +153,7 @@ Fixpoint unsci (v : value) : value :=
 
 Theorem norm_sym_keys : forall v, sym_keys v = true -> norm v = unsci v.
 Proof.
-  induction v as [| b | z | sci b | s | l IH | tn fs IH] using value_ind_nested; intro Hs; simpl in *; auto.
+  induction v as [| b | z | sci b | raw s | l IH | tn fs IH] using value_ind_nested; intro Hs; simpl in *; auto.
   - f_equal. apply map_ext_in. intros x Hx. rewrite forallb_forall in Hs. rewrite Forall_forall in IH. auto.
   - f_equal. apply map_ext_in. intros [k x] Hin. rewrite forallb_forall in Hs. rewrite Forall_forall in IH.
     pose proof (Hs _ Hin) as H. simpl in H. destruct k as [t|t]; [|discriminate].
@@ -162,7 +163,7 @@ Qed.
 (* ---- the side condition is needed: a field literally named Atype ---- *)
 
 Definition witness_reserved : value :=
-  VHash s_hash [(KSym s_Atype, VStr [101;118;105;108]); (KSym [97], VInt 2)].
+  VHash s_hash [(KSym s_Atype, VStr false [101;118;105;108]); (KSym [97], VInt 2)].
 
 Theorem unjson_json_reserved_refuted :
   exists v, data fmt v = true /\ sym_keys v = true /\ no_reserved_keys v = false /\
